@@ -276,6 +276,11 @@ pub fn run(ctx: &Ctx, model: &mut Model, rep: &mut Report) {
             for (j, n) in [1usize, 3].iter().enumerate() {
                 let dir = crate::oracle::md::dir_of(&lib[j + 1].0);
                 let url = md::rel_url(&t, &dir);
+                // (a text without a final line end — an empty note with a byte order mark — would take the first
+                // appended link into its last paragraph)
+                if !lib[j + 1].1.is_empty() && !lib[j + 1].1.ends_with('\n') {
+                    lib[j + 1].1.push('\n');
+                }
                 for _ in 0..*n {
                     lib[j + 1].1.push_str(&format!("\n[fan]({})\n", url));
                 }
